@@ -441,6 +441,9 @@ fn cmd_check(args: &[String]) -> i32 {
     }
     if tier != "thorough" {
         tier = "quick".into();
+    } else {
+        // read by the swarm generator (and inherited by the sibling build's process)
+        std::env::set_var("MWSIM_LONG", "1");
     }
     let seed = verif_seed();
     let (known, listed) = load_known();
